@@ -213,7 +213,7 @@ Deliver(id) ==
             /\ sensors' = sensors \cup {e.who}
             /\ engS' = [engS EXCEPT ![e.eng] = @ \cup {e.who}]
             /\ truthAt' = [truthAt EXCEPT ![e.who] = k]
-            /\ pointing' = [pointing EXCEPT ![e.who] = <<0, None>>]
+            /\ pointing' = [pointing EXCEPT ![e.who] = <<k, None>>]   \* last-tasked time = creation time
             /\ UNCHANGED <<targets, engT, estAt, queue, estQueue, biasQ>>
        [] e.kind = "removeTarget" ->
             /\ e.who \in targets
